@@ -2,6 +2,7 @@ import PySMT.Proofs.C09Lit
 import PySMT.Proofs.C08Table
 import PySMT.Proofs.C09Round
 import PySMT.Proofs.C09DagRound
+import PySMT.Proofs.C09ScriptRound
 import PySMT.Proofs.C07Example
 /-!
 # C09 — print → parse round trips: the property theorems
@@ -38,13 +39,21 @@ human-readable format.
 * `parse_print_id_state_partial` — … and the formula manager is left within `ρ` (no fresh symbol for a bound variable).
 * `parse_printDag_id_partial` — **DAG printer**, quantifier-free formulas (C07's `read_toSexpDag` covers those): the
   parser's reading of `toSexpDag t` is `unfoldAVw false t` (array values as store chains in argument order). Additional
-  hypotheses `defFree env` (no declared sort is named `.def_k`) and `noRot t` (the side condition of the agreement
-  theorem for rotations is proved for the tree printer's text only). `_partial`: formulas with quantifiers (nested
-  printers) and rotations under the DAG printer are covered by K/S only.
+  hypothesis `defFree env` (no declared sort is named `.def_k`). `_partial`: formulas with quantifiers (nested printers)
+  are covered by K/S only.
+* `script_print_parse_partial`, `script_printDag_parse_partial` — **the script of a formula**
+  (`smtlibscript_from_formula(f).serialize(daggify=False|True)`, model `scriptOfFormula`): run from the parser's initial
+  state, the whole script `(set-logic L) (declare-sort …)* (declare-fun …)* (assert …) (check-sat)` is accepted by the
+  parser model (`Parser.script`) and yields exactly the command list `Agree.scriptCommands`: the declarations of the
+  formula's sorts and free symbols, the assertion of the very same formula, `check-sat`. Hypotheses: C07's `ScriptOK logic
+  t` (the hypotheses of `decls_before_use`), `logicOK logic` (the parser's arithmetic flag for the logic agrees with the
+  standard's reading of numerals), `envOK (scriptEnv logic t)`, `ρ` contains the free symbols, `parseOK`, `mgrNormal`; for
+  the DAG form also `noQuant t` and `defFree`. `_partial`: scripts of one formula only (no `define-fun`, `push`/`pop`,
+  several assertions, OMT commands) — general re-serialised scripts are covered by K/S only.
 * `parse_print_id_literals_partial` — Int/Bool/String constants, under the weaker hypotheses of the first round (kept).
 * `printed_tokens_std` — every operator token of the parser table is the constructor the standard prescribes.
 
-Still K/S only: re-serialised scripts (command lists), the human-readable format, DAG with quantifiers or rotations.
+Still K/S only: general re-serialised scripts (arbitrary command lists), the human-readable format, DAG with quantifiers.
 -/
 namespace PySMT.Props.C09
 open PySMT PySMT.Parser PySMT.Printer PySMT.Parser.Agree
@@ -70,9 +79,29 @@ theorem parse_print_id_state_partial (env : Std.SEnv) (ρ : List (String × Sym)
 /-- **print → parse is the identity** (DAG printer, quantifier-free formulas). -/
 theorem parse_printDag_id_partial (env : Std.SEnv) (ρ : List (String × Sym)) (Γ : PEnv) (hc : Corr env [] Γ)
     (hm : MgrLe Γ.mgr ρ) (hdf : defFree env) (t : Term) (hP : Printable env [] t = true) (hq : noQuant t = true)
-    (hnr : noRot t = true) (hQ : parseOK env ρ t = true) (hN : mgrNormal t = true) :
+    (hQ : parseOK env ρ t = true) (hN : mgrNormal t = true) :
     readTerm Γ (toSexpDag t) = .ok (unfoldAVw false t) :=
-  Agree.parse_printDag_id env ρ Γ hc hm hdf t hP hq hnr hQ hN
+  Agree.parse_printDag_id env ρ Γ hc hm hdf t hP hq hQ hN
+
+/-- **print → parse of the script of a formula** (tree form): the exact command list. -/
+theorem script_print_parse_partial (logic : String) (ρ : List (String × Sym)) (t : Term)
+    (hs : ScriptOK logic t = true) (hl : logicOK logic = true) (henv : envOK (scriptEnv logic t) = true)
+    (hρ : ∀ s ∈ t.fv.eraseDups, ρ.lookup s.name = some s)
+    (hQ : parseOK (scriptEnv logic t) ρ t = true) (hN : mgrNormal t = true) :
+    script PEnv.init (scriptOfFormula logic false t) = .ok (scriptCommands logic t) :=
+  Agree.script_print_parse_exact logic ρ t hs hl henv hρ hQ hN
+
+/-- **print → parse of the script of a formula** (DAG form, pySMT's default; quantifier-free formulas). -/
+theorem script_printDag_parse_partial (logic : String) (ρ : List (String × Sym)) (t : Term)
+    (hs : ScriptOK logic t = true) (hl : logicOK logic = true) (henv : envOK (scriptEnv logic t) = true)
+    (hρ : ∀ s ∈ t.fv.eraseDups, ρ.lookup s.name = some s) (hdf : defFree (scriptEnv logic t))
+    (hq : noQuant t = true) (hQ : parseOK (scriptEnv logic t) ρ t = true) (hN : mgrNormal t = true) :
+    script PEnv.init (scriptOfFormula logic true t)
+      = .ok ([Command.setLogic ((logicEntry logic).map (·.1))]
+          ++ (sortDecls t).map (fun d => Command.declareSort d.1 d.2)
+          ++ t.fv.eraseDups.map (Command.declare "declare-fun")
+          ++ [Command.assert (unfoldAVw false t), Command.plain "check-sat" []]) :=
+  Agree.script_print_parse_dag logic ρ t hs hl henv hρ hdf hq hQ hN
 
 /-- the parser environment built from the declarations of `env` corresponds to `env` -/
 theorem penv_corresponds (env : Std.SEnv) (h : envOK env = true) (ρ : List (String × Sym)) :
@@ -102,17 +131,23 @@ def envEx : Std.SEnv := { logic := "QF_LIA", funs := [C07.x] }
 
 /-- all hypotheses of the round-trip theorems hold for `t1 = (<= |x y| (- 5))` (C07's example) in `envEx` -/
 example : envOK envEx = true ∧ Printable envEx [] C07.t1 = true ∧ parseOK envEx [] C07.t1 = true ∧
-    mgrNormal C07.t1 = true ∧ noQuant C07.t1 = true ∧ noRot C07.t1 = true :=
+    mgrNormal C07.t1 = true ∧ noQuant C07.t1 = true :=
   ⟨by decide, C07.pr_t1 envEx (by decide) (by decide),
    by simp [C07.t1, Term.sym, Term.int, parseOK, parseNodeOK],
-   by simp [C07.t1, Term.sym, Term.int, mgrNormal, rootNorm], C07.noQuant_t1,
-   by simp [C07.t1, Term.sym, Term.int, noRot]⟩
+   by simp [C07.t1, Term.sym, Term.int, mgrNormal, rootNorm], C07.noQuant_t1⟩
 
 /-- … hence the conclusion is about a real round trip: `(<= |x y| (- 5))` is read back as `t1` itself -/
 example : readTerm (penvOf envEx) (toSexp C07.t1) = .ok (unfoldAV C07.t1) :=
   parse_print_id_penv_partial envEx (by decide) [] C07.t1 (C07.pr_t1 envEx (by decide) (by decide))
     (by simp [C07.t1, Term.sym, Term.int, parseOK, parseNodeOK])
     (by simp [C07.t1, Term.sym, Term.int, mgrNormal, rootNorm])
+
+/-- the hypotheses of the script theorems hold for `t1`, logic `QF_LIA`, `ρ = [|x y|]` -/
+example :
+    ScriptOK "QF_LIA" C07.t1 = true ∧ logicOK "QF_LIA" = true ∧ envOK (scriptEnv "QF_LIA" C07.t1) = true ∧
+    (∀ s ∈ C07.t1.fv.eraseDups, [("x y", C07.x)].lookup s.name = some s) ∧ defFree (scriptEnv "QF_LIA" C07.t1) ∧
+    noQuant C07.t1 = true ∧ parseOK (scriptEnv "QF_LIA" C07.t1) [("x y", C07.x)] C07.t1 = true ∧
+    mgrNormal C07.t1 = true := Agree.example_script_hyps
 
 /-- `defFree` holds when no sort is declared -/
 example : defFree envEx := fun k => ⟨rfl, rfl⟩
@@ -121,9 +156,9 @@ example : defFree envEx := fun k => ⟨rfl, rfl⟩
 example : mgrNormal (.node .not [.node .not [Term.tt] .none] .none) = false := by
   simp [mgrNormal, rootNorm, notNorm, Term.tt]
 
-/-- … and a rotation is not `noRot` (DAG theorem only) -/
-example : noRot (.node .bvRol [Term.bvc 1 8] (.ints [8, 3])) = false := by
-  simp [noRot, Term.bvc]
+/-- … and a bound variable spelled like a numeral is not `parseOK` (F16b) -/
+example : parseOK envEx [] (.node .forall_ [Term.tt] (.qvars [Sym.var "12" .int])) = false := by
+  simp [parseOK, parseNodeOK, Term.tt, bindNameOK, pnameOK, Sym.var]
 
 example : lookup "true" PEnv.init.binds = some (.term Term.tt) ∧ lookup "false" PEnv.init.binds = some (.term Term.ff)
     ∧ PEnv.init.intArith.getD true = true := by
